@@ -158,7 +158,7 @@ WellFormed(t) ==
 RECURSIVE NodeSeq(_)
 NodeSeq(t) == IF IsNil(t) THEN <<>> ELSE IF IsLeaf(t) THEN <<t>> ELSE <<t>> \o NodeSeq(t.l) \o NodeSeq(t.r)
 Persisted(t) == LET s == NodeSeq(t) IN
-  /\ \A i \in 1..Len(s) : s[i].ver > 0 /\ s[i].id > 0
+  /\ \A i \in 1..Len(s) : s[i].ver > 0 /\ s[i].id >= 0
   /\ \A i, j \in 1..Len(s) : (s[i].ver = s[j].ver /\ s[i].id = s[j].id) => s[i] = s[j]
 
 \* the hash of a node commits to everything but the nonce and the routing key of inner nodes
@@ -311,6 +311,8 @@ Imp(n, ctr) ==
            b == Imp(n.r, a.ctr)
            c == IF n.ver \in DOMAIN b.ctr THEN b.ctr[n.ver] + 1 ELSE 1 IN
        [t |-> [n EXCEPT !.id = c + 1, !.l = a.t, !.r = b.t], ctr |-> (n.ver :> c) @@ b.ctr]
-ImportTree(t) == IF IsNil(t) THEN Nil ELSE [Imp(t, <<>>).t EXCEPT !.id = 1]
+\* a root older than the imported version is stored the way pruning stores a root that outlives
+\* its version: nonce 0 (so that the root search does not take its version for an available one)
+ImportTree(t, v) == IF IsNil(t) THEN Nil ELSE [Imp(t, <<>>).t EXCEPT !.id = IF t.ver < v THEN 0 ELSE 1]
 
 =============================================================================
